@@ -210,7 +210,7 @@ Qed.
 Theorem parse_then_replace_exported : forall cf ver w s fid body m' nid,
   parseM cf ver w = POk s ->
   let m := ps_m s in
-  replace_exported_func m fid body = POk (m', nid) ->
+  replace_exported_func_core m fid body = POk (m', nid) ->
   exists eid e f lf0 t lf,
     exported_func_export m fid = Some eid /\ aget (m_exports m) eid = Some e /\
     ex_kind e = EK_Func /\ ex_item e = fid /\
